@@ -75,7 +75,7 @@ var encryptErrExceptions = []ErrException{
 
 func runC09(c *Ctx) {
 	p, r := c.P, c.R
-	r.Explanation = "Decides the fail-closed and secure-default clauses structurally: every return of every Node.Process implementation of the repository carries a nil event or a nil error (never both non-nil); inside the encrypt walk no fallible call's error is dropped and each is returned (itself or wrapped) on every path of its error branch, so it reaches Process's error result; rotation payloads are consumed; DefaultFilterOperations is the literal table {public: none, sensitive: encrypt, secret: redact}, a missing tag yields (unknown, unknown) and convertToOperation is the identity on the declared constants; the full decision table of filterValue over classification x operation (no mutation iff public or none; secret/sensitive -> encrypt | hmac | redact per operation, anything else an error; every other classification redacted) including which early exits skip protection; NoOperation never survives for sensitive/secret unless it came from the override map; the handler inventory of the three reflective dispatchers; and that struct values handed to the field walk are settable or replaced by an addressable copy. It does not decide that the reflective walk reaches every string of every payload shape (reflection is opaque), nor cryptographic secrecy. C09.tagpair: every on-the-spot classification is computed from the tag that belongs to the very value being filtered (field i / the same PointerTag, in classification,operation order; write-back pointer and tracking entry agree; bare payloads are secret). C09.skip: closed vocabulary of skip conditions in the walkers; C09.mark: keys are marked filtered only in the map that directly holds the value; a payload that is itself a map is tracked for the final sweep. C09.shortcut: the untouched early return is taken only if every class's effective operation is none. C09.nilelem: no reflect.Value method that panics on the zero Value is reachable from an Elem() without a validity test (nil elements and fields are skipped, not a crash). C09.mark key-unescaped: tracking and pointerstructure agree on the key a pointer names. C09.defaults snapshot/option verbatim: operation overrides reach the tag decision exactly as configured. C09.every: element walkers leave a handling loop early only with an error. C09.handlers taggable-field-unconditional: a Taggable field's tags are applied whatever options the walk got (F52); C09.nilelem covers MapIndex results (F51)."
+	r.Explanation = "Decides the fail-closed and secure-default clauses structurally: every return of every Node.Process implementation of the repository carries a nil event or a nil error (never both non-nil); inside the encrypt walk no fallible call's error is dropped and each is returned (itself or wrapped) on every path of its error branch, so it reaches Process's error result; rotation payloads are consumed; DefaultFilterOperations is the literal table {public: none, sensitive: encrypt, secret: redact}, a missing tag yields (unknown, unknown) and convertToOperation is the identity on the declared constants; the full decision table of filterValue over classification x operation (no mutation iff public or none; secret/sensitive -> encrypt | hmac | redact per operation, anything else an error; every other classification redacted) including which early exits skip protection; NoOperation never survives for sensitive/secret unless it came from the override map; the handler inventory of the three reflective dispatchers; and that struct values handed to the field walk are settable or replaced by an addressable copy. It does not decide that the reflective walk reaches every string of every payload shape (reflection is opaque), nor cryptographic secrecy. C09.tagpair: every on-the-spot classification is computed from the tag that belongs to the very value being filtered (field i / the same PointerTag, in classification,operation order; write-back pointer and tracking entry agree; bare payloads are secret). C09.skip: closed vocabulary of skip conditions in the walkers; C09.mark: keys are marked filtered only in the map that directly holds the value; a payload that is itself a map is tracked for the final sweep. C09.shortcut: the untouched early return is taken only if every class's effective operation is none. C09.nilelem: no reflect.Value method that panics on the zero Value is reachable from an Elem() without a validity test (nil elements and fields are skipped, not a crash). C09.mark key-unescaped: tracking and pointerstructure agree on the key a pointer names. C09.defaults snapshot/option verbatim: operation overrides reach the tag decision exactly as configured. C09.every: element walkers leave a handling loop early only with an error. C09.handlers taggable-field-unconditional: a Taggable field's tags are applied whatever options the walk got (F52); C09.nilelem covers MapIndex results (F51). C09.handlers taggable-then-generic: after filterTaggable a trackMap and a filterField call stay reachable within the same iteration."
 	r.NotDecided = []string{"completeness of the reflective walk over all payload shapes (arm priority, pointer depth, arrays, shapes falling into the 'nothing reasonable yet' defaults)", "cryptographic secrecy of the wrapper"}
 	c.errControls()
 
@@ -114,6 +114,7 @@ func runC09(c *Ctx) {
 	c.rulePointerKindGuard("C09.nilelem")
 	c.ruleTaggableTrackIdentity("C09.mark")
 	c.ruleTaggableFieldAlways("C09.handlers")
+	c.ruleTaggableThenGeneric("C09.handlers")
 
 	// --- C09.rotate
 	nRot := 0
@@ -1353,7 +1354,7 @@ func mentionsOutside(t *Term, s string, cut ssa.Value) bool {
 
 func runC16(c *Ctx) {
 	p, r := c.P, c.R
-	r.Explanation = "Decides the key-selection and framing clauses: encrypt() encrypts exactly its data argument with the per-event wrapper option when present, else the filter's wrapper, and returns \"encrypted:\" + RawURL base64 of the marshalled blob; hmacSha256() derives a 32-byte key with NewDerivedReader(ctx, w, 32, salt, info) where w / salt / info are each the per-event option when non-nil else the filter's field (not swapped), MACs exactly its data argument with HMAC(SHA-256, key) and returns \"hmac-sha256:\" + RawURL base64; Process derives the per-event wrapper from NewEventWrapper(ctx, ef.Wrapper, EventId()) under the lock and hands the three per-event options to every value operation; all reads of Wrapper/HmacSalt/HmacInfo and the cryptographic call lie in one critical section, and Rotate / rotation payloads write them under the write lock (copying salt and info). Decrypt round-trip, HKDF and AEAD correctness are third-party semantics and not decided. Also the derivation shape: NewDerivedReader = LimitedReader{hkdf.New(sha256.New, checked key bytes of the wrapper argument, salt, info), lenLimit}; NewEventWrapper = aead wrapper keyed with ed25519.GenerateKey(NewDerivedReader(ctx, wrapper, >=32, f(eventId), g(eventId))) with every step checked, so the per-event key is a function of (wrapper key, event id) only. C16.forward: every walker hands its own options on. C16.event snapshot: an event with its own wrapper uses salt and info taken together with that wrapper. C16.raw: a value reached through a pointer tag is turned into bytes only by identity-preserving conversions. C16.atomic store-then-error: a rotation that returns an error has replaced none of Wrapper, HmacSalt, HmacInfo. C16.atomic rotation-applied: key material a rotation brings is stored on every successful path."
+	r.Explanation = "Decides the key-selection and framing clauses: encrypt() encrypts exactly its data argument with the per-event wrapper option when present, else the filter's wrapper, and returns \"encrypted:\" + RawURL base64 of the marshalled blob; hmacSha256() derives a 32-byte key with NewDerivedReader(ctx, w, 32, salt, info) where w / salt / info are each the per-event option when non-nil else the filter's field (not swapped), MACs exactly its data argument with HMAC(SHA-256, key) and returns \"hmac-sha256:\" + RawURL base64; Process derives the per-event wrapper from NewEventWrapper(ctx, ef.Wrapper, EventId()) under the lock and hands the three per-event options to every value operation; all reads of Wrapper/HmacSalt/HmacInfo and the cryptographic call lie in one critical section, and Rotate / rotation payloads write them under the write lock (copying salt and info). Decrypt round-trip, HKDF and AEAD correctness are third-party semantics and not decided. Also the derivation shape: NewDerivedReader = LimitedReader{hkdf.New(sha256.New, checked key bytes of the wrapper argument, salt, info), lenLimit}; NewEventWrapper = aead wrapper keyed with ed25519.GenerateKey(NewDerivedReader(ctx, wrapper, >=32, f(eventId), g(eventId))) with every step checked, so the per-event key is a function of (wrapper key, event id) only. C16.forward: every walker hands its own options on. C16.event snapshot: an event with its own wrapper uses salt and info taken together with that wrapper. C16.raw: a value reached through a pointer tag is turned into bytes only by identity-preserving conversions. C16.atomic store-then-error: a rotation that returns an error has replaced none of Wrapper, HmacSalt, HmacInfo. C16.atomic rotation-applied: key material a rotation brings is stored on every successful path. C16.event snapshot-non-nil: the snapshot of the filter's salt / info handed on as the per-event option is non-nil even when the filter has none."
 	r.NotDecided = []string{"decrypt round-trip and HKDF/AEAD correctness (go-kms-wrapping, x/crypto)", "determinism of derived wrappers beyond the arguments passed"}
 	c.lockControls()
 	must := c.MustLocks()
@@ -1516,150 +1517,7 @@ func runC16(c *Ctx) {
 		c.atomicSection("C16.atomic", fn, must, "filters/encrypt.NewDerivedReader")
 	}
 	// --- C16.event
-	if proc := c.Fn("C16.event", PkgEncrypt, "Filter", "Process"); proc != nil {
-		tb := p.NewTerms(nil)
-		nw := callsTo(proc, func(n string, cc *ssa.CallCommon) bool { return n == "filters/encrypt.NewEventWrapper" })
-		if len(nw) != 1 {
-			r.Bad("C16.event", "Process:NewEventWrapper", p.Pos(proc.Pos()), fmt.Sprintf("%d NewEventWrapper calls (expected 1)", len(nw)))
-		} else {
-			a := nw[0].Common().Args
-			okA := tb.Of(a[0]).IsParam("1:ctx") && tb.Of(a[1]).String() == "Field[Wrapper](Param(0:ef))" && strings.HasPrefix(tb.Of(a[2]).String(), "Call[invoke encrypt.EventWrapperInfo.EventId](")
-			held := must.At(nw[0])
-			_, locked := held["encrypt.Filter.l"]
-			// ... for EVERY event that brings its own wrapper information: the derivation depends on the
-			// payload alone (and on the early returns before it), not on which operations the filter's
-			// configuration mentions — a tag can ask for encrypt / hmac-sha256 on its own, and such a
-			// value would silently be protected with the filter's key instead of the event's
-			okAlways := false
-			for _, b := range proc.Blocks {
-				cond, ts, _ := condOf(b)
-				ex, isEx := cond.(*ssa.Extract)
-				if !isEx || ex.Index != 1 {
-					continue
-				}
-				ta, isTA := ex.Tuple.(*ssa.TypeAssert)
-				if !isTA || !strings.HasSuffix(typeShort(ta.AssertedType), "EventWrapperInfo") {
-					continue
-				}
-				// the derivation sits on the true side of that very branch, with nothing else in between
-				if ts == nw[0].Block() || (ts.Dominates(nw[0].Block()) && unconditionalBetween(ts, nw[0].Block())) {
-					okAlways = true
-				}
-			}
-			r.Check(okAlways, "C16.event", "Process:NewEventWrapper:every-wrapper-event", p.InstrPos(nw[0]), "the event wrapper is derived for every payload that implements EventWrapperInfo", "the per-event wrapper is derived only under a condition besides `the payload implements EventWrapperInfo` (a shortcut such as `no configured operation needs a wrapper`): a value whose tag itself asks for encrypt or hmac-sha256 is then protected with the filter's wrapper, salt and info instead of the event's")
-			r.Check(okA && locked, "C16.event", "Process:NewEventWrapper", p.InstrPos(nw[0]), "per-event wrapper = NewEventWrapper(ctx, ef.Wrapper, payload.EventId()) computed under the filter lock", "the per-event wrapper is not derived from (ctx, ef.Wrapper, EventId()) under the filter lock (held: "+held.String()+")")
-			// the three options
-			want := map[string]string{"filters/encrypt.WithWrapper": "Extract[0](" + tb.Of(nw[0].(ssa.Value)).String() + ")", "filters/encrypt.WithInfo": "Call[invoke encrypt.EventWrapperInfo.HmacInfo]", "filters/encrypt.WithSalt": "Call[invoke encrypt.EventWrapperInfo.HmacSalt]"}
-			for name, w := range want {
-				cs := callsTo(proc, func(n string, cc *ssa.CallCommon) bool { return n == name })
-				pos := p.Pos(proc.Pos())
-				if len(cs) > 0 {
-					pos = p.InstrPos(cs[0])
-				}
-				if name == "filters/encrypt.WithWrapper" {
-					ok := len(cs) == 1 && strings.HasPrefix(tb.Of(cs[0].Common().Args[0]).String(), w)
-					r.Check(ok, "C16.event", "Process:"+name, pos, "per-event option built from the payload's own value", "per-event option "+name+" is not built from the matching per-event value")
-					continue
-				}
-				// salt / info: the payload's own value, or else the filter's — taken in the SAME critical
-				// section as the wrapper the event wrapper is derived from. Leaving the fallback to the
-				// value operations (which read the filter's field when the option is nil) pairs this
-				// event's wrapper with whatever salt/info a Rotate has installed meanwhile.
-				field := map[string]string{"filters/encrypt.WithInfo": "HmacInfo", "filters/encrypt.WithSalt": "HmacSalt"}[name]
-				if len(cs) != 1 {
-					r.Bad("C16.event", "Process:"+name, pos, fmt.Sprintf("%d calls of %s in Process (expected 1)", len(cs), name))
-					continue
-				}
-				var leaves []ssa.Value
-				var walk func(v ssa.Value, seen map[ssa.Value]bool)
-				walk = func(v ssa.Value, seen map[ssa.Value]bool) {
-					if seen[v] {
-						return
-					}
-					seen[v] = true
-					if ph, ok := v.(*ssa.Phi); ok {
-						for _, e := range ph.Edges {
-							walk(e, seen)
-						}
-						return
-					}
-					leaves = append(leaves, v)
-				}
-				walk(cs[0].Common().Args[0], map[ssa.Value]bool{})
-				own, fallback, other := false, false, ""
-				for _, lf := range leaves {
-					lt := tb.Of(lf).String()
-					switch {
-					case strings.HasPrefix(lt, w):
-						own = true
-					case strings.Contains(lt, "Field["+field+"](Param(0:ef))"):
-						fallback = true
-					default:
-						other = lt
-					}
-				}
-				r.Check(own && other == "", "C16.event", "Process:"+name, pos, "per-event option built from the payload's own value (or the filter's when it has none)", "per-event option "+name+" is not built from the matching per-event value: "+other)
-				// the filter's field is read in the critical section of the wrapper
-				sameSection := false
-				if fallback {
-					sameSection = true
-					var release ssa.Instruction
-					eachInstr(proc, func(in ssa.Instruction) {
-						if ci, ok := in.(ssa.CallInstruction); ok {
-							if op := lockOpOf(ci.Common()); op != nil && !op.Acquire && op.Class == "encrypt.Filter.l" && dominatesInstr(nw[0], in) && (release == nil || dominatesInstr(in, release)) {
-								release = in
-							}
-						}
-					})
-					nLoads := 0
-					eachInstr(proc, func(in ssa.Instruction) {
-						ld, ok := in.(*ssa.UnOp)
-						if !ok || ld.Op != token.MUL {
-							return
-						}
-						fa, ok := ld.X.(*ssa.FieldAddr)
-						if !ok || fa.X != ssa.Value(proc.Params[0]) {
-							return
-						}
-						if fa.X.Type().Underlying().(*types.Pointer).Elem().Underlying().(*types.Struct).Field(fa.Field).Name() != field {
-							return
-						}
-						if !tb.Of(cs[0].Common().Args[0]).ContainsValue(ld) {
-							return
-						}
-						nLoads++
-						if _, held := must.At(in)["encrypt.Filter.l"]; !held || release == nil || dominatesInstr(release, in) {
-							sameSection = false
-						}
-					})
-					if nLoads == 0 {
-						sameSection = false
-					}
-				}
-				r.Check(fallback && sameSection, "C16.event", "Process:"+name+":snapshot", pos, "when the payload has no "+field+" the filter's is taken in the critical section in which the event wrapper is derived", "when the payload brings no "+field+" the option stays nil and every value operation falls back to the filter's "+field+" at the time of THAT value: a Rotate while the event is processed pairs the wrapper derived from the old filter wrapper with the new "+field+" (key material that is neither the old nor the new)")
-			}
-		}
-		// every value operation in Process receives opts...
-		n := 0
-		eachInstr(proc, func(in ssa.Instruction) {
-			ci, ok := in.(ssa.CallInstruction)
-			if !ok {
-				return
-			}
-			switch calleeName(ci.Common()) {
-			case "(*filters/encrypt.Filter).filterValue", "(*filters/encrypt.Filter).filterSlice", "(*filters/encrypt.Filter).filterField", "(*filters/encrypt.Filter).filterTaggable", "(*filters/encrypt.trackedMaps).processUnfiltered":
-				n++
-				last := ci.Common().Args[len(ci.Common().Args)-1]
-				t := tb.Of(last)
-				ok := strings.Contains(t.String(), "filters/encrypt.WithWrapper") || strings.Contains(t.String(), "Make(slice)") || t.Op == "Phi" || t.Op == "Call" || t.Op == "Slice"
-				// the variadic must be (derived from) the opts slice built in Process
-				r.Check(ok && derivesFromOpts(last, 0), "C16.event", "Process->"+calleeName(ci.Common()), p.InstrPos(in), "the per-event options are handed on", "a value operation is called without the per-event options: it would use the filter key although the event has its own")
-			}
-		})
-		if n < 6 {
-			r.Und("C16.event", "instance-floor", "", fmt.Sprintf("only %d value operations found in Process", n))
-		}
-	}
+	c.ruleEventKeyMaterial("C16.event")
 	// --- C16.atomic (writers)
 	for _, name := range []string{"Rotate", "Process"} {
 		fn := c.Fn("C16.atomic", PkgEncrypt, "Filter", name)
@@ -1768,5 +1626,240 @@ func (c *Ctx) atomicSection(rule string, fn *ssa.Function, must *Locks, cryptoCa
 	})
 	if ok {
 		r.Check(acq == 1 && n >= 2, rule, p.ShortFn(fn)+":section", p.Pos(fn.Pos()), fmt.Sprintf("%d key-material reads and the cryptographic call inside one critical section", n), fmt.Sprintf("%d acquisitions of the filter lock in one value operation (expected 1)", acq))
+	}
+}
+
+// ruleEventKeyMaterial: everything Filter.Process does to give one event ONE set of key material (wrapper, salt,
+// info) — decided for C16.event, and for C19 (a Rotate interleaved with a Send must not produce output protected with a
+// mixture of the old and the new configuration).
+func (c *Ctx) ruleEventKeyMaterial(rule string) {
+	p, r := c.P, c.R
+	must := c.MustLocks()
+	if proc := c.Fn(rule, PkgEncrypt, "Filter", "Process"); proc != nil {
+		tb := p.NewTerms(nil)
+		nw := callsTo(proc, func(n string, cc *ssa.CallCommon) bool { return n == "filters/encrypt.NewEventWrapper" })
+		if len(nw) != 1 {
+			r.Bad(rule, "Process:NewEventWrapper", p.Pos(proc.Pos()), fmt.Sprintf("%d NewEventWrapper calls (expected 1)", len(nw)))
+		} else {
+			a := nw[0].Common().Args
+			okA := tb.Of(a[0]).IsParam("1:ctx") && tb.Of(a[1]).String() == "Field[Wrapper](Param(0:ef))" && strings.HasPrefix(tb.Of(a[2]).String(), "Call[invoke encrypt.EventWrapperInfo.EventId](")
+			held := must.At(nw[0])
+			_, locked := held["encrypt.Filter.l"]
+			// ... for EVERY event that brings its own wrapper information: the derivation depends on the
+			// payload alone (and on the early returns before it), not on which operations the filter's
+			// configuration mentions — a tag can ask for encrypt / hmac-sha256 on its own, and such a
+			// value would silently be protected with the filter's key instead of the event's
+			okAlways := false
+			for _, b := range proc.Blocks {
+				cond, ts, _ := condOf(b)
+				ex, isEx := cond.(*ssa.Extract)
+				if !isEx || ex.Index != 1 {
+					continue
+				}
+				ta, isTA := ex.Tuple.(*ssa.TypeAssert)
+				if !isTA || !strings.HasSuffix(typeShort(ta.AssertedType), "EventWrapperInfo") {
+					continue
+				}
+				// the derivation sits on the true side of that very branch, with nothing else in between
+				if ts == nw[0].Block() || (ts.Dominates(nw[0].Block()) && unconditionalBetween(ts, nw[0].Block())) {
+					okAlways = true
+				}
+			}
+			r.Check(okAlways, rule, "Process:NewEventWrapper:every-wrapper-event", p.InstrPos(nw[0]), "the event wrapper is derived for every payload that implements EventWrapperInfo", "the per-event wrapper is derived only under a condition besides `the payload implements EventWrapperInfo` (a shortcut such as `no configured operation needs a wrapper`): a value whose tag itself asks for encrypt or hmac-sha256 is then protected with the filter's wrapper, salt and info instead of the event's")
+			r.Check(okA && locked, rule, "Process:NewEventWrapper", p.InstrPos(nw[0]), "per-event wrapper = NewEventWrapper(ctx, ef.Wrapper, payload.EventId()) computed under the filter lock", "the per-event wrapper is not derived from (ctx, ef.Wrapper, EventId()) under the filter lock (held: "+held.String()+")")
+			// the three options
+			want := map[string]string{"filters/encrypt.WithWrapper": "Extract[0](" + tb.Of(nw[0].(ssa.Value)).String() + ")", "filters/encrypt.WithInfo": "Call[invoke encrypt.EventWrapperInfo.HmacInfo]", "filters/encrypt.WithSalt": "Call[invoke encrypt.EventWrapperInfo.HmacSalt]"}
+			for name, w := range want {
+				cs := callsTo(proc, func(n string, cc *ssa.CallCommon) bool { return n == name })
+				pos := p.Pos(proc.Pos())
+				if len(cs) > 0 {
+					pos = p.InstrPos(cs[0])
+				}
+				if name == "filters/encrypt.WithWrapper" {
+					ok := len(cs) == 1 && strings.HasPrefix(tb.Of(cs[0].Common().Args[0]).String(), w)
+					r.Check(ok, rule, "Process:"+name, pos, "per-event option built from the payload's own value", "per-event option "+name+" is not built from the matching per-event value")
+					continue
+				}
+				// salt / info: the payload's own value, or else the filter's — taken in the SAME critical
+				// section as the wrapper the event wrapper is derived from. Leaving the fallback to the
+				// value operations (which read the filter's field when the option is nil) pairs this
+				// event's wrapper with whatever salt/info a Rotate has installed meanwhile.
+				field := map[string]string{"filters/encrypt.WithInfo": "HmacInfo", "filters/encrypt.WithSalt": "HmacSalt"}[name]
+				if len(cs) != 1 {
+					r.Bad(rule, "Process:"+name, pos, fmt.Sprintf("%d calls of %s in Process (expected 1)", len(cs), name))
+					continue
+				}
+				var leaves []ssa.Value
+				var walk func(v ssa.Value, seen map[ssa.Value]bool)
+				walk = func(v ssa.Value, seen map[ssa.Value]bool) {
+					if seen[v] {
+						return
+					}
+					seen[v] = true
+					if ph, ok := v.(*ssa.Phi); ok {
+						for _, e := range ph.Edges {
+							walk(e, seen)
+						}
+						return
+					}
+					leaves = append(leaves, v)
+				}
+				walk(cs[0].Common().Args[0], map[ssa.Value]bool{})
+				// loads of the filter's field (ef.<field>)
+				isFieldLoad := func(v ssa.Value) bool {
+					ld, ok := v.(*ssa.UnOp)
+					if !ok || ld.Op != token.MUL {
+						return false
+					}
+					fa, ok := ld.X.(*ssa.FieldAddr)
+					if !ok || fa.X != ssa.Value(proc.Params[0]) {
+						return false
+					}
+					return fa.X.Type().Underlying().(*types.Pointer).Elem().Underlying().(*types.Struct).Field(fa.Field).Name() == field
+				}
+				// make([]byte, len(ef.<field>)) filled by copy(_, ef.<field>) is a snapshot too; its loads and the
+				// copy itself are then what has to happen in the wrapper's critical section
+				extra := map[ssa.Instruction]bool{}
+				madeCopy := func(mk *ssa.MakeSlice) bool {
+					ln, ok := mk.Len.(*ssa.Call)
+					if !ok {
+						return false
+					}
+					if b, isB := ln.Call.Value.(*ssa.Builtin); !isB || b.Name() != "len" || !isFieldLoad(ln.Call.Args[0]) {
+						return false
+					}
+					found := false
+					for _, ref := range *mk.Referrers() {
+						cp, ok := ref.(*ssa.Call)
+						if !ok {
+							continue
+						}
+						if b, isB := cp.Call.Value.(*ssa.Builtin); isB && b.Name() == "copy" && cp.Call.Args[0] == ssa.Value(mk) && isFieldLoad(cp.Call.Args[1]) {
+							found = true
+							extra[cp] = true
+							extra[cp.Call.Args[1].(*ssa.UnOp)] = true
+							extra[ln.Call.Args[0].(*ssa.UnOp)] = true
+						}
+					}
+					return found
+				}
+				own, fallback, other := false, false, ""
+				for _, lf := range leaves {
+					lt := tb.Of(lf).String()
+					mk, isMk := lf.(*ssa.MakeSlice)
+					switch {
+					case strings.HasPrefix(lt, w):
+						own = true
+					case strings.Contains(lt, "Field["+field+"](Param(0:ef))"):
+						fallback = true
+					case isMk && madeCopy(mk):
+						fallback = true
+					default:
+						other = lt
+					}
+				}
+				r.Check(own && other == "", rule, "Process:"+name, pos, "per-event option built from the payload's own value (or the filter's when it has none)", "per-event option "+name+" is not built from the matching per-event value: "+other)
+				// the filter's field is read in the critical section of the wrapper
+				sameSection := false
+				if fallback {
+					sameSection = true
+					var release ssa.Instruction
+					eachInstr(proc, func(in ssa.Instruction) {
+						if ci, ok := in.(ssa.CallInstruction); ok {
+							if op := lockOpOf(ci.Common()); op != nil && !op.Acquire && op.Class == "encrypt.Filter.l" && dominatesInstr(nw[0], in) && (release == nil || dominatesInstr(in, release)) {
+								release = in
+							}
+						}
+					})
+					nLoads := 0
+					eachInstr(proc, func(in ssa.Instruction) {
+						if cp, isCall := in.(*ssa.Call); isCall && extra[cp] {
+							if _, held := must.At(in)["encrypt.Filter.l"]; !held || release == nil || dominatesInstr(release, in) {
+								sameSection = false
+							}
+							return
+						}
+						ld, ok := in.(*ssa.UnOp)
+						if !ok || !isFieldLoad(ld) {
+							return
+						}
+						if !tb.Of(cs[0].Common().Args[0]).ContainsValue(ld) && !extra[ld] {
+							return
+						}
+						nLoads++
+						if _, held := must.At(in)["encrypt.Filter.l"]; !held || release == nil || dominatesInstr(release, in) {
+							sameSection = false
+						}
+					})
+					if nLoads == 0 {
+						sameSection = false
+					}
+				}
+				// ... and what is taken is a non-nil slice even when the filter has no salt / info: hmacSha256 uses
+				// an option only when it is non-nil and otherwise reads the filter's field at the time of THAT
+				// value — a nil snapshot (bytes.Clone(nil), append([]byte(nil), nil...)) does not pin anything.
+				if fallback {
+					var nonNilSlice func(v ssa.Value, d int) bool
+					nonNilSlice = func(v ssa.Value, d int) bool {
+						if d > 4 {
+							return false
+						}
+						switch x := v.(type) {
+						case *ssa.MakeSlice:
+							return true
+						case *ssa.Slice:
+							_, isArr := x.X.(*ssa.Alloc)
+							return isArr
+						case *ssa.Call:
+							if b, ok := x.Call.Value.(*ssa.Builtin); ok && b.Name() == "append" {
+								return nonNilSlice(x.Call.Args[0], d+1)
+							}
+						}
+						return false
+					}
+					okNN := true
+					var visit func(v ssa.Value, seen map[ssa.Value]bool)
+					visit = func(v ssa.Value, seen map[ssa.Value]bool) {
+						if seen[v] {
+							return
+						}
+						seen[v] = true
+						if ph, ok := v.(*ssa.Phi); ok {
+							for _, e := range ph.Edges {
+								visit(e, seen)
+							}
+							return
+						}
+						if strings.Contains(tb.Of(v).String(), "Field["+field+"](Param(0:ef))") && !nonNilSlice(v, 0) {
+							okNN = false
+						}
+					}
+					visit(cs[0].Common().Args[0], map[ssa.Value]bool{})
+					r.Check(okNN, rule, "Process:"+name+":snapshot-non-nil", pos, "the snapshot of the filter's "+field+" is a non-nil slice also when the filter has none",
+						"the snapshot of the filter's "+field+" can be nil (a clone of, or an append onto, a nil slice is nil): hmacSha256 ignores a nil option and reads the filter's "+field+" when each value is handled, so an event that started while the filter had no "+field+" is not pinned — a rotation that introduces one while the event is processed pairs the event's wrapper with the new "+field)
+				}
+				r.Check(fallback && sameSection, rule, "Process:"+name+":snapshot", pos, "when the payload has no "+field+" the filter's is taken in the critical section in which the event wrapper is derived", "when the payload brings no "+field+" the option stays nil and every value operation falls back to the filter's "+field+" at the time of THAT value: a Rotate while the event is processed pairs the wrapper derived from the old filter wrapper with the new "+field+" (key material that is neither the old nor the new)")
+			}
+		}
+		// every value operation in Process receives opts...
+		n := 0
+		eachInstr(proc, func(in ssa.Instruction) {
+			ci, ok := in.(ssa.CallInstruction)
+			if !ok {
+				return
+			}
+			switch calleeName(ci.Common()) {
+			case "(*filters/encrypt.Filter).filterValue", "(*filters/encrypt.Filter).filterSlice", "(*filters/encrypt.Filter).filterField", "(*filters/encrypt.Filter).filterTaggable", "(*filters/encrypt.trackedMaps).processUnfiltered":
+				n++
+				last := ci.Common().Args[len(ci.Common().Args)-1]
+				t := tb.Of(last)
+				ok := strings.Contains(t.String(), "filters/encrypt.WithWrapper") || strings.Contains(t.String(), "Make(slice)") || t.Op == "Phi" || t.Op == "Call" || t.Op == "Slice"
+				// the variadic must be (derived from) the opts slice built in Process
+				r.Check(ok && derivesFromOpts(last, 0), rule, "Process->"+calleeName(ci.Common()), p.InstrPos(in), "the per-event options are handed on", "a value operation is called without the per-event options: it would use the filter key although the event has its own")
+			}
+		})
+		if n < 6 {
+			r.Und(rule, "instance-floor", "", fmt.Sprintf("only %d value operations found in Process", n))
+		}
 	}
 }
